@@ -20,6 +20,7 @@ type Case struct {
 	SpyTests     []string       // user tests: true, recorded
 	FailAt       int            // index of the spy invocation that fails (-1 = none)
 	Facts        string         // "" / "fixed" / "pinned": which sandbox facts the MODEL uses (regression instances)
+	Config       string         // "" (default) | "cache-off" | "dev" | "auto-reload": engine settings applied before registration
 	Prime        string         // a template parsed on a throwaway engine right before this case (pooled tokenizers/parsers are reused)
 	Globals      map[string]any // engine globals (AddGlobal); the model has none: used by the shadowing oracle only
 }
@@ -121,6 +122,14 @@ func runImpl(c *Case) Outcome {
 				}
 				return true, nil
 			})
+		}
+		switch c.Config {
+		case "cache-off":
+			e.SetCache(false)
+		case "dev":
+			e.SetDevelopmentMode(true)
+		case "auto-reload":
+			e.SetAutoReload(true)
 		}
 		for _, g := range sortedKeys(c.Globals) {
 			e.AddGlobal(g, c.Globals[g])
@@ -346,7 +355,97 @@ func compareCase(e *Env, c *Case, key, broken string) (im Outcome, mo Outcome, o
 		return im, mo, false, nil
 	}
 	shadowOracle(e, c, im)
+	configAndPerturbOracle(e, c, im)
 	return im, mo, true, nil
+}
+
+// configAndPerturbOracle (implementation-only, every fifth case):
+//   - the same templates on engines with the cache off / development mode / auto-reload, each rendered three times:
+//     every render equals the default engine's (these settings choose where a template comes from, not what it means);
+//   - the engine is rendered with the case's context, then with a PERTURBED context (numbers + 1, strings with a
+//     suffix, lists reversed and extended), then compared with a fresh engine rendering the perturbed context: nothing
+//     computed from the first context (a folded constant, a memoised default, a cached sequence) may survive.
+var cfgTick int
+
+func perturb(v any) any {
+	switch x := v.(type) {
+	case int:
+		return x + 1
+	case string:
+		return x + "~"
+	case bool:
+		return !x
+	case nil:
+		return "was-nil"
+	case []interface{}:
+		out := make([]interface{}, 0, len(x)+1)
+		for i := len(x) - 1; i >= 0; i-- {
+			out = append(out, perturb(x[i]))
+		}
+		return append(out, "extra")
+	case map[string]interface{}:
+		out := map[string]interface{}{}
+		for k, e := range x {
+			out[k] = perturb(e)
+		}
+		return out
+	}
+	return v
+}
+
+func configAndPerturbOracle(e *Env, c *Case, im Outcome) {
+	cfgTick++
+	if cfgTick%5 != 0 || c.FailAt >= 0 || c.Config != "" || len(c.SpyFilters)+len(c.SpyFunctions)+len(c.SpyTests) > 0 || im.Class == "panic" || im.Class == "timeout" {
+		return
+	}
+	for _, cfg := range []string{"cache-off", "dev", "auto-reload"} {
+		c2 := *c
+		c2.Config = cfg
+		first := runImpl(&c2)
+		eng := lastEngine
+		bad := first.Class != im.Class || first.Out != im.Out
+		got := first
+		for k := 0; k < 2 && !bad && eng != nil; k++ {
+			res := guarded(func() (string, error) {
+				ctx, _ := deepCopy(map[string]interface{}(c.Ctx)).(map[string]interface{})
+				return eng.Render(c.Main, ctx)
+			})
+			got = Outcome{Out: res.Out, Class: mapClass(res.Class)}
+			bad = got.Class != im.Class || got.Out != im.Out
+		}
+		e.Rep.Hit("engine-config:" + cfg)
+		if bad {
+			rp := c.replay(im, got)
+			rp["config"] = cfg
+			e.Rep.Violate(Violation{Key: "engine-setting-changes-output", What: fmt.Sprintf("with %s the same templates and context render %q (%s), with the default settings %q (%s)", cfg, truncate(got.Out, 120), got.Class, truncate(im.Out, 120), im.Class),
+				Broken: "theorem C01_history_independence / C15: cache and reload settings do not change what a registered template renders (implementation-only oracle)", Replay: rp})
+			break
+		}
+	}
+	// perturbed context on a warm engine vs on a fresh one
+	p := map[string]any{}
+	for k, v := range c.Ctx {
+		p[k] = perturb(v)
+	}
+	c3 := *c
+	c3.Ctx = p
+	fresh := runImpl(&c3)
+	runImpl(c)
+	eng := lastEngine
+	if eng == nil {
+		return
+	}
+	res := guarded(func() (string, error) {
+		ctx, _ := deepCopy(map[string]interface{}(p)).(map[string]interface{})
+		return eng.Render(c.Main, ctx)
+	})
+	e.Rep.Hit("rerender-with-other-context")
+	if mapClass(res.Class) != fresh.Class || res.Out != fresh.Out {
+		rp := c3.replay(fresh, Outcome{Out: res.Out, Class: mapClass(res.Class)})
+		rp["first_ctx"] = fmt.Sprint(c.Ctx)
+		e.Rep.Violate(Violation{Key: "earlier-template-changed", What: fmt.Sprintf("an engine that has rendered the template with one context renders it with another context as %q (%s); a fresh engine gives %q (%s)", truncate(res.Out, 120), res.Class, truncate(fresh.Out, 120), fresh.Class),
+			Broken: "theorem C01_history_independence (nothing computed from an earlier context survives in the template; implementation-only oracle)", Replay: rp})
+	}
 }
 
 // shadowOracle: engine globals named like the keys of the render context change nothing — wherever a template of
